@@ -239,6 +239,8 @@ def build_oracle(log):
         log("native oracle build attempt %d failed (rc %s):\n%s" % (attempt, rc, out[-2500:]))
     if rc != 0:
         return None
+    # unoptimised twin (cargo builds proc-macros with opt-level 0): used for the stack-depth stress only
+    core.sh(["cargo", "build", "--offline", "--bin", "oracle", "--target-dir", td], cwd=cd, timeout=1800)
     return os.path.join(td, "release", "oracle")
 
 
@@ -396,7 +398,8 @@ def run(tier, seed, view="C03"):
         if not m:
             undecided.append("native sweep produced no summary: %s" % out[-500:])
         # long literals (stack depth / time): a crash of the oracle process is a totality violation
-        rc, out, dt = oracle(binpath, "stress", "50000" if tier == "quick" else "400000", timeout=900)
+        dbg = binpath.replace(os.sep + "release" + os.sep, os.sep + "debug" + os.sep)
+        rc, out, dt = oracle(dbg if os.path.exists(dbg) else binpath, "stress", "60000" if tier == "quick" else "400000", timeout=900)
         ms = re.search(r"STRESS shapes=(\d+) repeat=(\d+) violations=(\d+)", out)
         smis = [ln[len("MISMATCH "):] for ln in out.splitlines() if ln.startswith("MISMATCH ")]
         if not ms:
@@ -405,7 +408,7 @@ def run(tier, seed, view="C03"):
         for i, mm in enumerate(smis[:3]):
             prop = "C18" if mm.startswith("PANIC") else "C03"
             path = core.write_replay(prop, "stress_%d" % i, {
-                "property": prop, "obligation": "bounded stand-in: literals of 12 shapes repeated up to %s times are parsed within a 512 KiB stack and 20 s" % (ms.group(2) if ms else "?"),
+                "property": prop, "obligation": "bounded stand-in: literals of 12 shapes repeated up to %s times are parsed by an unoptimised build within an 8 MiB stack and 20 s" % (ms.group(2) if ms else "?"),
                 "failing_literal": mm, "how_to_replay": "oracle stress <n> (built by ./check C03)"})
             violations.append((prop, "literal_stress/%d" % i, path, "", mm))
     else:
